@@ -17,8 +17,10 @@ class G:
         self.draw = draw
         self.avoid = avoid      # keep away from the listed finding shapes (they are produced by the witness strategy)
         self.lines = []
-        self.expect = []        # (row, var, sorted classes, tag)
+        self.expect = []        # (row, var, sorted classes, tag, path of enclosing branch ids)
         self.shapes = set()
+        self.path = []
+        self.nbranch = 0
 
     def i(self, a, b):
         return self.draw(st.integers(a, b))
@@ -31,7 +33,7 @@ class G:
 
     def probe(self, ind, v, s, tag):
         self.emit(ind, "dbtp %s" % v)
-        self.expect.append([len(self.lines), v, sorted(s, key=ORDER.index), tag])
+        self.expect.append([len(self.lines), v, sorted(s, key=ORDER.index), tag, list(self.path)])
 
     def atoms(self, v, cur):
         """Atoms on v whose admitted set is a strict non-empty subset of cur."""
@@ -126,6 +128,14 @@ class G:
             self.probe(ind, w, state[w], "after:%s" % cs)
 
     def branch(self, ind, state, watched, depth, tag):
+        self.nbranch += 1
+        self.path.append(self.nbranch)
+        try:
+            self._branch(ind, state, watched, depth, tag)
+        finally:
+            self.path.pop()
+
+    def _branch(self, ind, state, watched, depth, tag):
         for w in watched:
             if state[w]:
                 self.probe(ind, w, state[w], tag + "-start")
@@ -200,8 +210,16 @@ class Check(Prop):
         by_row = {}
         for k, r, t in recs:
             by_row.setdefault(r, []).append(t)
-        nontrivial = any(tag != "init" and not tag.startswith("after") for _, _, _, tag in case["expect"])
-        for row, v, exp, tag in case["expect"]:
+        nontrivial = any(ex[3] != "init" and not ex[3].startswith("after") for ex in case["expect"])
+        from .. import findings as findingsmod
+        listed = [e["params"]["tag_pattern"] for e in findingsmod.entries_for("C10") if e.get("params", {}).get("tag_pattern")]
+        tainted = []            # branch paths whose state is wrong because of a listed finding: dependent probes are not examined
+        first_listed = None
+        for ex in case["expect"]:
+            row, v, exp, tag = ex[:4]
+            path = ex[4] if len(ex) > 4 else None
+            if path is not None and any(path[:len(t)] == t for t in tainted):
+                continue
             got = by_row.get(row)
             if not got:
                 return Verdict({"what": "no dbtp output on row %d (%s, %s)" % (row, v, tag), "row": row, "tag": tag, "program": src}, labels + ["mismatch"], nontrivial, key)
@@ -210,9 +228,18 @@ class Check(Prop):
             except outmod.TypeParseError:
                 g = frozenset([got[-1]])
             if g != frozenset(exp):
-                return Verdict({"what": "row %d `dbtp %s` (%s): expected %s, ti reports %s" % (row, v, tag, exp, got[-1]), "row": row, "tag": tag,
-                                "expected": exp, "got": got[-1], "var": v, "program": meta.with_rows(src), "shapes": case.get("shapes")},
-                               labels + ["mismatch", "tag:" + tag], nontrivial, key)
+                vd = Verdict({"what": "row %d `dbtp %s` (%s): expected %s, ti reports %s" % (row, v, tag, exp, got[-1]), "row": row, "tag": tag,
+                              "expected": exp, "got": got[-1], "var": v, "program": meta.with_rows(src), "shapes": case.get("shapes")},
+                             labels + ["mismatch", "tag:" + tag], nontrivial, key)
+                if path is not None and path and any(re.fullmatch(pt, tag) for pt in listed):
+                    # a listed finding inside branch `path`: everything nested in that branch depends on the wrong state
+                    tainted.append(path)
+                    if first_listed is None:
+                        first_listed = vd
+                    continue
+                return vd
+        if first_listed is not None:
+            return first_listed
         return Verdict(None, labels, nontrivial, key)
 
     def matchers(self):
